@@ -234,6 +234,7 @@ func runC03(r *Report, tier string) {
 	r.rule("R03.1", "in every built-in Verifier/DigestVerifier method each non-failure exit is dominated by the accepting outcome of the crypto primitive (ecdsa.Verify true, rsa.VerifyPSS nil, ed25519.Verify true) with message=content/digest param, signature args derived from the signature param only, key from the receiver, or is delegated to a sibling method under the same rule; failure exits return ErrVerification or the hash error.")
 	r.rule("R03.2", "in every exported Verify entry point each non-failure exit carries ok(Verifier.Verify invoke) on the caller's verifier (directly, by delegation, or per element of a full-range loop).")
 	r.rule("R03.3", "before the verifier invoke of each structure's Verify: signature non-empty, payload non-nil (where the structure has one), algorithm gate succeeded.")
+	r.rule("R02.3", "(shared with C02) the bstr head normaliser applied to protected bytes returns its input unchanged for shortest-form heads and otherwise the same content under the shortest head; it refuses only malformed input.")
 	r.rule("R16.3", "strict ECDSA decode (shared with C16): the decode helper succeeds only for len(sig) == 2n and splits at n, so no byte can be inserted into or removed from a signature without changing (r, s) or being refused.")
 	r.rule("R03.4", "the context strings reaching element 0 of every ToBeSigned array are the six RFC constants, and Sign1 / Signature / countersignature builders produce disjoint sets.")
 	r.assumes("crypto/ecdsa.Verify, crypto/rsa.VerifyPSS and crypto/ed25519.Verify accept only valid signatures (not analysed)")
@@ -354,6 +355,12 @@ func runC03(r *Report, tier string) {
 
 	// exact-width ECDSA decoding: a changed signature cannot decode to the same (r, s)
 	checkECDSAStrictDecode(r, "R16.3")
+	// RSASSA-PSS parameters are the algorithm's: hash of the algorithm, salt
+	// length fixed to the hash length (no auto-detection on verify)
+	checkPSSOptions(r, "R03.1")
+	// the protected bytes enter the signed structure as received: the head
+	// normaliser changes nothing but the width of the length prefix
+	checkHeadNormalizer(r, "R02.3")
 
 	// R03.3 and R03.4 over key sites
 	sites := P.keySites()
